@@ -33,7 +33,8 @@ def mib_text(mod, imports, outcome='good', variant=0, extra_modules=()):
         lines.append('IMPORTS ' + ' '.join('%s FROM %s' % (V1_BASE_IMPORT.get(i, node_name(i) + 'x'), i) for i in imports) + ';')
     k = (abs(hash_int(mod)) % 1000) + 1
     lines.append('%s OBJECT IDENTIFIER ::= { 1 3 %d %d }' % (node_name(mod), k, variant))
-    if outcome == 'lex':
+    lexkind = ((1, 0, 2, 1, 0, 2)[USER.index(mod)] if mod in USER else hash_int(mod) % 3) if outcome == 'lex' else None
+    if lexkind == 0:
         lines.append('bad1 OBJECT IDENTIFIER ::= { 1 $ 3 }')
     elif outcome == 'syntax':
         lines.append('bad2 OBJECT IDENTIFIER { 1 3 }')
@@ -44,6 +45,10 @@ def mib_text(mod, imports, outcome='good', variant=0, extra_modules=()):
     if outcome != 'trunc':
         lines.append('END')
     text = '\n'.join(lines) + '\n'
+    if lexkind == 1:
+        text += '\n\x0c\n'         # a form feed after END (as in texts cut out of RFCs): an illegal character, nothing after it
+    elif lexkind == 2:
+        text = text.replace('::= {', '::= \xa0{', 1)
     for ent in extra_modules:
         name, imps = ent[0], ent[1]
         text += mib_text(name, imps, ent[2] if len(ent) > 2 else 'good', variant)
